@@ -51,7 +51,7 @@ reg(
     "C08",
     RULE="(SAN list, commonName, cn flag, host) tuples fed to the real match_hostname / connection._match_hostname and (certificate bytes, pin) pairs fed to assert_fingerprint; names built from the label alphabet {a,b,ab,*,a*,*a,a*b,**,xn--a,xn--*,''}: all single-entry x host pairs up to the stated label counts, strided 4-label pairs, case variants, random 2-3 entry lists, exhaustive small commonName grid, IP spellings typed DNS / IP Address; pins: case change, colon at every position, every single-nibble flip, every truncation, 1-2 nibble extensions, wrong-length digests; a case is non-trivial unless it is the unmodified true pin; distinct = distinct tuples",
     ASSUMPTIONS=COMMON_ASSUMPTIONS + [
-        "three-valued reference: partial wildcards (a*, *a, a*b), bare '*', hosts that themselves contain '*' or empty labels, empty names and unparsable iPAddress entries are 'either' and only counted",
+        "three-valued reference: partial wildcards (a*, *a, a*b), bare '*', hosts that themselves contain '*', empty names and unparsable iPAddress entries are 'either' and only counted",
         "commonName is must-accept only when enabled, the host is not an IP and the certificate has no DNS/IP SAN entry",
         "SAN lists longer than 3 entries and names longer than 4 labels are not generated",
     ],
@@ -61,4 +61,21 @@ reg(
     LEVEL_NOTE="Trusts the reference matcher (about 60 lines, written from the statement) and Python's ipaddress module for address values; 'either' points are counted but never judged.",
     TECHNIQUE="differential runtime monitoring against a three-valued reference matcher; exhaustive enumeration of the small alphabet",
     REQUIRED_MONITORS={"quick": {"name_decided": 100000, "pin_verdict": 5000, "cn_rule": 500, "ip_rule": 500}, "thorough": {"name_decided": 10**6, "pin_verdict": 5000}},
+)
+
+reg(
+    "C14",
+    RULE="strings given to parse_url: every string up to a length bound over the 20-symbol delimiter-heavy alphabet behind the prefixes '', '//', 'http://', 'HTTPS://x'; grammar-generated URLs with hostile components and one-character splices; random unicode incl. lone surrogates; 49 pathological repetition families (incl. authorities that fail to match after a long run) timed at n=10^3..10^5; a case is the input string (or timing family); non-trivial = non-empty body; distinct = distinct strings",
+    ASSUMPTIONS=COMMON_ASSUMPTIONS + [
+        "the independent authority split is applied only to inputs that have an RFC 3986 authority ('scheme://' or '//' prefix); scheme-less inputs such as 'host:80' follow urllib3's documented best-effort reading and are judged for totality and normal form only",
+        "host agreement is modulo case, IDNA (idna package) and zone '%25'->'%'; userinfo agreement is after percent-decoding; '' and None hosts are identified for the reference comparison (idempotence is judged separately)",
+        "running time: CPU thread_time, min of 3, must stay <= 5 s at n=10^5 and grow <= 12x per 4x size step above 20 ms; a breach must be confirmed by 3 re-measurements",
+        "a component that mixes valid and invalid '%' is by design treated as unencoded (documented behaviour of _encode_invalid_chars)",
+    ],
+    SHARDS={"quick": 8, "thorough": 16},
+    BUDGET={"quick": 60, "thorough": 900},
+    LEVEL_TEXT="Runtime monitoring of parse_url on an exhaustive short-string space plus grammar/random/pathological inputs; each result is judged by a totality monitor, a normal-form predicate, an idempotence monitor, an independent RFC 3986 authority split, and a CPU-time scaling monitor.",
+    LEVEL_NOTE="Trusts the 50-line reference authority splitter and the idna package; strings longer than the exhaustive bound are sampled; timing is measured on this machine with a generous envelope.",
+    TECHNIQUE="differential runtime monitoring against an independent RFC 3986 authority reader + invariant (normal form, idempotence) and scaling monitors; exhaustive short-string enumeration",
+    REQUIRED_MONITORS={"quick": {"totality": 100000, "normal_form": 20000, "idempotence": 20000, "reference_split": 20000, "scaling": 40}, "thorough": {"totality": 10**6, "reference_split": 10**5, "scaling": 40}},
 )
